@@ -97,6 +97,26 @@ def run(ctx, rep, tier):
             rep.ok("C02.d", f"{cl}.may_return_early", f"{cl} declares early return (template has none on feed paths: conservative)")
         else:
             rep.ok("C02.d", f"{cl}.may_return_early", f"{cl}: no non-final return on feed paths", nontrivial=False)
+    # recursive template calls forward the whole calling context
+    rep.rule("C02.g", "nested action templates (conditional / break sub-actions) are rendered with the same is_start / is_end / transition context")
+    n_rec = 0
+    for cl in classes:
+        fp = ctx.emit.enumerate(ACT, classes={"action": cl})
+        seen_calls = set()
+        for p in fp.paths:
+            for it in flatten_items(fp.lines(p)):
+                if isinstance(it, CallBlock) and it.call.callee == "_generate_action_implementation":
+                    args = tuple(it.call.args_src)
+                    if args in seen_calls:
+                        continue
+                    seen_calls.add(args)
+                    n_rec += 1
+                    ok = {"is_start=is_start", "is_end=is_end", "transition=transition"} <= set(args[1:])
+                    rep.check(ok, "C02.g", ACT, f"{cl}: nested call ({', '.join(args)})",
+                              "a nested action is rendered without the enclosing context: inside feed it then emits the start()-form (`return OK` instead of "
+                              "`goto repeatswitch` / `goto skipaction`), dropping the rest of the chunk")
+    if n_rec < 2:
+        raise AnalysisError("C02.g: nested template calls not found")
     # ConditionalAction propagates
     owner, f = model.resolve_method("ConditionalAction", "may_return_early")
     src = ast.unparse(f) if f else ""
